@@ -205,8 +205,8 @@ func (e StdEng) Dot(x, y Tensor, opts ...FuncOpt) (retVal Tensor, err error) {
 	case a.IsVector():
 		switch {
 		case b.IsVector():
-			// check size
-			if a.len() != b.len() {
+			// check size (the number of logical elements, not the length of the storage window)
+			if a.Shape().TotalSize() != b.Shape().TotalSize() {
 				err = errors.Errorf(shapeMismatch, a.Shape(), b.Shape())
 				return
 			}
